@@ -176,6 +176,7 @@ func cmdCheck(argv []string) int {
 	if s := os.Getenv("VERIF_SEED"); s != "" {
 		seed, _ = strconv.ParseInt(s, 10, 64)
 	}
+	evidencePartial = *only != ""
 	spec := properties[id]
 	if spec == nil {
 		fmt.Fprintf(os.Stderr, "unknown property %s\n", id)
